@@ -22,10 +22,16 @@ and consumer), and every schedule.  Liveness is stated without temporal logic:
 * `C15_Progress_quiescent` deadlock- and lost-wake-up-freedom: if no thread can take a step, every
                           unfinished thread is legitimately waiting (parked, ring open, its
                           condition genuinely unmet).
-Under weak fairness of the scheduler (trusted, not modelled) these give the property; what is
-*not* proved is a global termination measure (see NOTES-ring.md).
+* `C15_Progress`          a termination measure `mu` (rank of the program counters + weight of the
+                          calls not yet started + credit of pending wake-ups) strictly decreases with
+                          every enabled step of every thread: no schedule contains more than
+                          `mu (initial state)` enabled steps (no livelock), and from every reachable
+                          state at most that many enabled steps lead to a state where nothing can run —
+                          in which every call has returned or waits legitimately, and every call has
+                          returned if `Close` was called.
+Fairness of the Go scheduler (an enabled goroutine is eventually run) is the remaining hypothesis.
 -/
-import Mqtt.Proofs.RingProgress
+import Mqtt.Proofs.RingTerm
 import Mqtt.Proofs.RingFacts
 
 set_option linter.unusedSimpArgs false
@@ -186,6 +192,46 @@ theorem C15_Progress_quiescent (cfg : Cfg) (adv gate : Nat) (progP progC : List 
   intro s hq t th hth
   have h := C15_invariant cfg adv gate progP progC progsK hgate hok sched
   exact quiescent_legit cfg adv s h.safe h.lock h.nlwc h.nlwp hq t th hth
+
+/-- **Progress.**  (1) Every enabled step of every thread strictly decreases the measure `mu`.
+(2) Along any schedule at most `mu (initial state)` steps are enabled: there is no livelock, wait
+loops cannot spin (each iteration consumes a Broadcast of another thread, and programs are finite).
+(3) From every reachable state, stepping enabled threads at most `mu` times reaches — by a
+schedule, so again a reachable state — a state in which no thread can take a step; there every
+thread has finished its program or is legitimately waiting (consumer parked, no/insufficient data,
+ring open; producer parked, insufficient space, ring open), and if `Close` has been called every
+thread has finished.  Together: a consumer blocked for data proceeds once enough bytes are
+committed, a producer blocked for space proceeds once enough bytes are consumed, Close returns and
+makes every blocked or later call return — in every run in which enabled threads keep being
+scheduled (fairness of the Go scheduler is the hypothesis). -/
+theorem C15_Progress (cfg : Cfg) (adv gate : Nat) (progP progC : List Call) (progsK : List (List Call))
+    (hgate : gate ≤ adv) (hok : ProgsOK progP progC progsK) (sched : List Tid) :
+    let s := reach cfg adv gate progP progC progsK sched
+    (∀ t s', step cfg s t = some s' → mu cfg s' < mu cfg s) ∧
+    taken cfg (mkInit cfg adv gate progP progC progsK) sched ≤ mu cfg (mkInit cfg adv gate progP progC progsK) ∧
+    (∃ sched', let q := run cfg s sched'
+        (∀ t, step cfg q t = none) ∧
+        (∀ t th, q.getTh t = some th →
+          (th.pc = .idle ∧ th.prog = []) ∨
+          (t = .c ∧ cParked th.pc = true ∧ noDataAt q.sh.pseq th.pc ∧ q.sh.done = false) ∨
+          (t = .p ∧ pParked th.pc = true ∧ noSpaceAt cfg.size q.sh.cseq th.pc ∧ q.sh.done = false)) ∧
+        (q.sh.done = true → ∀ t th, q.getTh t = some th → th.pc = .idle ∧ th.prog = [])) := by
+  intro s
+  have h := C15_invariant cfg adv gate progP progC progsK hgate hok sched
+  refine ⟨fun t s' hs => mu_step cfg adv s s' t h.safe hs, ?_, ?_⟩
+  · have := taken_le_mu cfg adv _ sched (rinv_init cfg adv gate progP progC progsK hgate hok)
+    omega
+  · obtain ⟨sched', hd⟩ := drain_reach cfg s (mu cfg s)
+    refine ⟨sched', ?_⟩
+    have hq := drain_quiescent cfg adv s (mu cfg s) h.safe (Nat.le_refl _)
+    rw [hd] at hq
+    have hl := live_run cfg adv s sched' h
+    refine ⟨hq, fun t th hth => quiescent_legit cfg adv _ hl.safe hl.lock hl.nlwc hl.nlwp hq t th hth, ?_⟩
+    intro hdone t th hth
+    rcases quiescent_legit cfg adv _ hl.safe hl.lock hl.nlwc hl.nlwp hq t th hth with a | ⟨_, _, _, b⟩ | ⟨_, _, _, b⟩
+    · exact a
+    · rw [hdone] at b; cases b
+    · rw [hdone] at b; cases b
 
 /-- the lock structure regenerated from buffer.go is the model's, and the model's step function
 performs exactly those lock operations at the marks -/
